@@ -15,6 +15,7 @@ from ..sym import Sym, show, walk_expr, interval_of
 from ..facts import callee_name
 from ..common import trait_impls, short, coroutine_of, SOCKET_TYPES, rfc_compatible, strip_casts, len_base
 from .. import pathq
+from . import fq as fqmod
 from ..oblig import LenFacts, norm_base
 from . import tables, hs
 
@@ -385,7 +386,7 @@ def check_registration(f, rep):
             if p.end != "return":
                 continue
             tab = [(i, e) for i, e in pathq.calls(p, "upsert_async", "upsert_sync", "insert_async", "insert_sync", "insert_entry", "entry_async") if "scc::" in e.name]
-            fq = [(i, e) for i, e in pathq.calls(p, "insert") if "QueueInner" in e.name]
+            fq = [(i, e) for i, e in pathq.calls(p, "insert") if fqmod.inner_name(f) in e.name]
             rr = [(i, e) for i, e in pathq.calls(p, "push") if "SegQueue" in e.name]
             rep.check(len(tab) <= 1 and len(fq) <= 1 and len(rr) <= 1, "R04.4", "R04.4|%s|at-most-once" % ty,
                       "%s registers at most once per path (table %d, receive queue %d, rotation %d)" % (ty, len(tab), len(fq), len(rr)), co.loc())
@@ -432,7 +433,7 @@ def check_registration(f, rep):
 
 
 def check_report(f, rep):
-    cb = [b for b in f.bodies if "Socket::bind::{closure#0}::{closure#0}::{closure#0}" in b.path and b.j.get("coroutine_kind")]
+    cb = hs.accept_callbacks(f)
     rep.floor("R04.5", "accept callback coroutine", len(cb), 1)
     for b in cb:
         seen = {"AcceptFailed": 0, "Accepted": 0}
